@@ -265,6 +265,9 @@ def bounded_status(first_only=True):
 
 
 def bounded(chk):
+    nf, badf = filename_search(3 if chk.tier == "quick" else 5)
+    chk.bounded_result("content_disposition_filenames", nf, nf, True, "all names over an 11-symbol alphabet (delimiters, space, non-ASCII) up to length 3 (quick) / 5 (thorough)",
+                       [{"detail": str(badf), "witness": badf, "class": "unsafe-header"}] if badf else [])
     n, d, failures, samples = bounded_status()
     chk.bounded_result("status_mapping_job_states", n, d, True,
                        "all combinations of 11 render-job states x 11 makezip-job states x writers x posted/default writer x other writers' jobs, real Application with a stub queue serving real job._json() snapshots",
@@ -404,7 +407,7 @@ def p4_content_disposition(chk):
         if filename is None:
             I.oblige("default_name", I.eq_term(utf8_fn, "collection"))
 
-    chk.prove("nserve.get_content_disposition_values", harness_vals, ex, targets=[vals])
+    chk.prove("nserve.get_content_disposition_values", harness_vals, ex, targets=[vals], replay=replay_filenames)
 
     ex2 = Explorer()
     ex2.models.update({k: ex.models[k] for k in ("urllib.parse.quote",)})
@@ -428,4 +431,34 @@ def p4_content_disposition(chk):
         I.oblige("header_printable_ascii", models.alpha_term(safe, _safe_char, h) if not z3.is_string_value(h) else True)
         I.oblige("header_is_inline_with_filename", z3.PrefixOf(z3.StringVal("inline; filename="), h))
 
-    chk.prove("nserve.get_content_disposition", harness_disp, ex2, targets=[disp])
+    chk.prove("nserve.get_content_disposition", harness_disp, ex2, targets=[disp], replay=replay_filenames)
+
+
+def filename_search(maxlen=4):
+    """run-time contract of P4 on the real functions over all names of <= maxlen symbols"""
+    import itertools
+    from mwlib.core import nserve
+    alpha = ["a", " ", ";", ":", '"', "'", ",", "\u00f6", "_", "\u4e2d", "."]
+    n = 0
+    for ln in range(0, maxlen + 1):
+        for t in itertools.product(alpha, repeat=ln):
+            name = "".join(t)
+            for fn in (name, None) if ln == 0 else (name,):
+                n += 1
+                try:
+                    a, u = nserve.get_content_disposition_values(fn, "pdf")
+                    h = nserve.get_content_disposition(fn, "pdf")
+                except Exception as e:  # noqa: BLE001
+                    return n, {"filename": fn, "raised": type(e).__name__}
+                ok = a and all(0x20 < ord(c) <= 0x7e and c not in ";:\"'," for c in a) and \
+                    all(0x20 <= ord(c) <= 0x7e for c in h) and h.startswith("inline; filename=" + a + ".pdf")
+                if not ok:
+                    return n, {"filename": fn, "ascii_fn": a, "header": h}
+    return n, None
+
+
+def replay_filenames(model, obligation):
+    n, bad = filename_search()
+    if bad:
+        return True, bad, "unsafe-header"
+    return False, {"model": model, "searched": n}, None
